@@ -344,3 +344,245 @@ Proof.
   - vm_compute. reflexivity.
   - vm_compute. discriminate.
 Qed.
+
+(* ================================================================== string literals are opaque (Python) *)
+(* A literal body is a sequence of items: a plain character (not the quote character, not a backslash, not LF)
+   or a backslash followed by any character but LF; inside a triple-quoted literal the escaped character is not
+   the quote character either. *)
+Inductive item (q0 : ch) (tri : bool) : str -> Prop :=
+| it_plain : forall c, c <> q0 -> c <> BSL -> c <> LF -> item q0 tri [c]
+| it_esc : forall c, c <> LF -> (tri = true -> c <> q0) -> item q0 tri [BSL; c].
+Inductive body (q0 : ch) (tri : bool) : str -> Prop :=
+| b_nil : body q0 tri []
+| b_cons : forall i r, item q0 tri i -> body q0 tri r -> body q0 tri (i ++ r).
+
+Inductive seg := Code (s : str) | Lit (q0 : ch) (tri : bool) (b : str).
+Definition quote_of (q0 : ch) (tri : bool) : str := if tri then [q0; q0; q0] else [q0].
+Definition lit_text (q0 : ch) (tri : bool) (b : str) : str := quote_of q0 tri ++ b ++ quote_of q0 tri.
+Definition render_seg (s : seg) : str := match s with Code c => c | Lit q0 tri b => lit_text q0 tri b end.
+Definition render (segs : list seg) : str := concat (map render_seg segs).
+Fixpoint placeholders_raw (k : nat) (segs : list seg) : str :=
+  match segs with
+  | [] => []
+  | Code c :: r => c ++ placeholders_raw k r
+  | Lit _ _ _ :: r => placeholder k ++ placeholders_raw (S k) r
+  end.
+Fixpoint placeholders (k : nat) (segs : list seg) : str :=
+  match segs with
+  | [] => []
+  | Code c :: r => map tabfix c ++ placeholders k r
+  | Lit _ _ _ :: r => placeholder k ++ placeholders (S k) r
+  end.
+Definition literals (segs : list seg) : list str :=
+  flat_map (fun s => match s with Code _ => [] | Lit q0 tri b => [lit_text q0 tri b] end) segs.
+
+Definition quote_free (c : str) : Prop := ~ In QT c /\ ~ In APOS c.
+Inductive wf_segs : list seg -> Prop :=
+| wf_nil : wf_segs []
+| wf_code : forall c r, quote_free c -> wf_segs r -> wf_segs (Code c :: r)
+| wf_lit : forall q0 tri b r, q0 = QT \/ q0 = APOS -> body q0 tri b -> wf_segs r ->
+    (* an empty "" / '' is not directly followed by a third quote of its kind (that would open a triple quote) *)
+    (tri = false -> b = [] -> starts_with [q0] (render r) = false) ->
+    wf_segs (Lit q0 tri b :: r).
+
+Lemma starts_with_refl_app : forall p r, starts_with p (p ++ r) = true.
+Proof. induction p as [|c p IH]; intro r; [reflexivity|]. cbn [app starts_with]. rewrite N.eqb_refl. apply IH. Qed.
+
+Lemma quote_of_head : forall q0 tri, exists t, quote_of q0 tri = q0 :: t.
+Proof. intros q0 [|]; [exists [q0; q0] | exists []]; reflexivity. Qed.
+
+Lemma starts_with_quote_other : forall q0 tri c X, c <> q0 -> starts_with (quote_of q0 tri) (c :: X) = false.
+Proof.
+  intros q0 tri c X H. destruct (quote_of_head q0 tri) as [t ->]. cbn [starts_with].
+  rewrite (proj2 (N.eqb_neq q0 c)); [reflexivity|]. intro E. apply H. symmetry. exact E.
+Qed.
+
+Lemma scan_body : forall q0 tri b, q0 = QT \/ q0 = APOS -> body q0 tri b ->
+  forall rest pos fb,
+  scan_py (quote_of q0 tri) (b ++ quote_of q0 tri ++ rest) pos false 0 fb =
+  Some (pos + length b + length (quote_of q0 tri))%nat.
+Proof.
+  intros q0 tri b Hq Hb. induction Hb as [|i r Hi Hr IH]; intros rest pos fb.
+  - cbn [app length]. destruct (quote_of_head q0 tri) as [t Et].
+    assert (E : scan_py (quote_of q0 tri) (quote_of q0 tri ++ rest) pos false 0 fb = Some (pos + length (quote_of q0 tri))%nat).
+    { pose proof (starts_with_refl_app (quote_of q0 tri) rest) as S. revert S. rewrite Et. cbn [app]. intro S.
+      cbn [scan_py]. rewrite S. reflexivity. }
+    rewrite E. f_equal. lia.
+  - assert (Hb34 : BSL <> q0) by (destruct Hq as [->| ->]; discriminate).
+    destruct Hi as [c H1 H2 H3 | c H3 Ht].
+    + cbn [app]. cbn [scan_py]. rewrite (starts_with_quote_other q0 tri c _ H1).
+      rewrite (proj2 (N.eqb_neq c LF) H3), (proj2 (N.eqb_neq c BSL) H2).
+      rewrite IH. f_equal. cbn [length]. lia.
+    + cbn [app]. cbn [scan_py]. rewrite (starts_with_quote_other q0 tri BSL _ Hb34).
+      change (N.eqb BSL LF) with false. change (N.eqb BSL BSL) with true. cbn [negb].
+      destruct (starts_with (quote_of q0 tri) (c :: r ++ quote_of q0 tri ++ rest)) eqn:E.
+      * destruct tri.
+        { destruct (N.eqb_spec c q0) as [->|Hc]; [exfalso; apply (Ht eq_refl); reflexivity|].
+          rewrite (starts_with_quote_other q0 true c _ Hc) in E. discriminate. }
+        { cbn [quote_of length Nat.sub] in *. rewrite IH. f_equal. cbn [length]. lia. }
+      * rewrite (proj2 (N.eqb_neq c LF) H3).
+        assert (Eo : (if N.eqb c BSL then false else false) = false) by (destruct (N.eqb c BSL); reflexivity).
+        rewrite Eo. rewrite IH. f_equal. cbn [length]. lia.
+Qed.
+
+Lemma body_head : forall q0 tri b, q0 = QT \/ q0 = APOS -> body q0 tri b -> b = [] \/ exists c t, b = c :: t /\ c <> q0.
+Proof.
+  intros q0 tri b Hq Hb. destruct Hb as [|i r Hi Hr]; [left; reflexivity|]. right.
+  destruct Hi as [c H1 H2 H3 | c H3 Ht].
+  - exists c, r. split; [reflexivity | exact H1].
+  - exists BSL, (c :: r). split; [reflexivity|]. destruct Hq as [->| ->]; discriminate.
+Qed.
+
+Lemma lit_match_literal : forall q0 tri b rest, q0 = QT \/ q0 = APOS -> body q0 tri b ->
+  (tri = false -> b = [] -> starts_with [q0] rest = false) ->
+  lit_match_py (lit_text q0 tri b ++ rest) = Some (length (lit_text q0 tri b)).
+Proof.
+  intros q0 tri b rest Hq Hb Hn. unfold lit_text.
+  assert (Eq : N.eqb q0 QT || N.eqb q0 APOS = true) by (destruct Hq as [->| ->]; reflexivity).
+  destruct tri.
+  - cbn [quote_of app]. unfold lit_match_py. rewrite Eq. cbn [starts_with]. rewrite !N.eqb_refl. cbn [andb skipn].
+    pose proof (scan_body q0 true b Hq Hb rest 3%nat None) as S. cbn [quote_of] in S.
+    rewrite <- app_assoc. cbn [app] in *. rewrite S. f_equal. cbn [length]. rewrite app_length. cbn [length]. lia.
+  - cbn [quote_of app]. unfold lit_match_py. rewrite Eq.
+    assert (Et : starts_with [q0; q0; q0] (q0 :: (b ++ [q0]) ++ rest) = false).
+    { destruct (body_head q0 false b Hq Hb) as [->|[c [t [-> Hc]]]].
+      - cbn [app starts_with]. rewrite !N.eqb_refl. cbn [andb]. specialize (Hn eq_refl eq_refl).
+        destruct rest as [|x rest]; [reflexivity|]. cbn [starts_with] in Hn. rewrite andb_true_r in Hn. rewrite Hn. reflexivity.
+      - cbn [app starts_with]. rewrite N.eqb_refl. rewrite (proj2 (N.eqb_neq q0 c)); [reflexivity|].
+        intro E. apply Hc. symmetry. exact E. }
+    rewrite Et.
+    pose proof (scan_body q0 false b Hq Hb rest 1%nat None) as S. cbn [quote_of] in S.
+    rewrite <- app_assoc. cbn [app] in *. rewrite S. f_equal. cbn [length]. rewrite app_length. cbn [length]. lia.
+Qed.
+
+Lemma sep_code : forall c rest k, quote_free c ->
+  sep lit_match_py (c ++ rest) 0 k = (c ++ fst (sep lit_match_py rest 0 k), snd (sep lit_match_py rest 0 k)).
+Proof.
+  induction c as [|x c IH]; intros rest k [H1 H2].
+  - cbn [app]. destruct (sep lit_match_py rest 0 k); reflexivity.
+  - cbn [app sep].
+    assert (Ex : lit_match_py (x :: c ++ rest) = None).
+    { unfold lit_match_py.
+      rewrite (proj2 (N.eqb_neq x QT)) by (intro E; apply H1; left; rewrite E; reflexivity).
+      rewrite (proj2 (N.eqb_neq x APOS)) by (intro E; apply H2; left; rewrite E; reflexivity). reflexivity. }
+    rewrite Ex. rewrite IH.
+    + destruct (sep lit_match_py rest 0 k); reflexivity.
+    + split; intro Hi; [apply H1 | apply H2]; right; exact Hi.
+Qed.
+
+Lemma sep_skip : forall m x rest k, sep m (x ++ rest) (length x) k = sep m rest 0 k.
+Proof. intros m x. induction x as [|c x IH]; intros rest k; [reflexivity|]. cbn [app length sep]. apply IH. Qed.
+
+Lemma sep_literal : forall L rest k, lit_match_py (L ++ rest) = Some (length L) -> (2 <= length L)%nat ->
+  sep lit_match_py (L ++ rest) 0 k =
+  (placeholder k ++ fst (sep lit_match_py rest 0 (S k)), L :: snd (sep lit_match_py rest 0 (S k))).
+Proof.
+  intros L rest k Hm Hl. destruct L as [|c L]; [cbn in Hl; lia|].
+  cbn [app] in *. cbn [sep]. rewrite Hm. cbn [length Nat.sub]. rewrite Nat.sub_0_r.
+  rewrite sep_skip. destruct (sep lit_match_py rest 0 (S k)) as [f ls]. cbn [fst snd].
+  f_equal. f_equal. change (c :: L ++ rest) with ((c :: L) ++ rest).
+  change (S (length L)) with (length (c :: L)). rewrite firstn_app, firstn_all, Nat.sub_diag. cbn [firstn]. apply app_nil_r.
+Qed.
+
+Lemma lit_text_len : forall q0 tri b, (2 <= length (lit_text q0 tri b))%nat.
+Proof. intros q0 [|] b; unfold lit_text; cbn [quote_of]; rewrite !app_length; cbn [length]; lia. Qed.
+
+Lemma render_cons : forall s r, render (s :: r) = render_seg s ++ render r.
+Proof. reflexivity. Qed.
+
+Theorem sep_segments : forall segs k, wf_segs segs ->
+  sep lit_match_py (render segs) 0 k = (placeholders_raw k segs, literals segs).
+Proof.
+  intros segs k H. revert k. induction H as [|c r Hc Hr IH | q0 tri b r Hq Hb Hr IH Hn]; intro k.
+  - reflexivity.
+  - rewrite render_cons. cbn [render_seg]. rewrite (sep_code c (render r) k Hc). rewrite IH. reflexivity.
+  - rewrite render_cons. cbn [render_seg].
+    rewrite (sep_literal (lit_text q0 tri b) (render r) k (lit_match_literal q0 tri b (render r) Hq Hb Hn) (lit_text_len q0 tri b)).
+    rewrite IH. reflexivity.
+Qed.
+
+(* the placeholder contains no TAB, so the final TAB -> space replacement only touches code *)
+Lemma dec_fuel_ge48 : forall fuel n acc, Forall (fun c => 48 <= c) acc -> Forall (fun c => 48 <= c) (dec_fuel fuel n acc).
+Proof.
+  induction fuel as [|f IH]; intros n acc H; [exact H|]. cbn [dec_fuel].
+  assert (H' : Forall (fun c => 48 <= c) ((n mod 10 + 48) :: acc)) by (constructor; [apply N.le_add_l | exact H]).
+  destruct (N.ltb n 10); [exact H' | apply IH; exact H'].
+Qed.
+
+Lemma tabfix_id : forall s, Forall (fun c => c <> TAB) s -> map tabfix s = s.
+Proof.
+  induction s as [|c s IH]; intro H; [reflexivity|]. inversion H as [|? ? Hc Hs]; subst. cbn [map]. rewrite IH by exact Hs.
+  unfold tabfix. rewrite (proj2 (N.eqb_neq c TAB) Hc). reflexivity.
+Qed.
+
+Lemma placeholder_no_tab : forall k, map tabfix (placeholder k) = placeholder k.
+Proof.
+  intro k. apply tabfix_id. unfold placeholder. apply Forall_app. split; [|apply Forall_app; split].
+  - unfold PH_PREFIX. repeat constructor; discriminate.
+  - unfold dec_of_nat, dec_of_N. eapply Forall_impl; [|apply dec_fuel_ge48; constructor].
+    intros c Hc E. subst. unfold TAB in Hc. lia.
+  - unfold PH_SUFFIX. repeat constructor; discriminate.
+Qed.
+
+Lemma placeholders_tabfix : forall segs k, map tabfix (placeholders_raw k segs) = placeholders k segs.
+Proof.
+  induction segs as [|[c|q0 tri b] r IH]; intro k; [reflexivity| |].
+  - cbn [placeholders_raw placeholders]. rewrite map_app, IH. reflexivity.
+  - cbn [placeholders_raw placeholders]. rewrite map_app, IH, placeholder_no_tab. reflexivity.
+Qed.
+
+Theorem literals_opaque : forall segs, wf_segs segs ->
+  separate_string_literals LPy (render segs) = (placeholders 0 segs, literals segs).
+Proof.
+  intros segs H. unfold separate_string_literals. cbn [lit_match]. rewrite (sep_segments segs 0 H).
+  rewrite placeholders_tabfix. reflexivity.
+Qed.
+
+(* ------------------------------------------------------------------ non-vacuity of literals_opaque *)
+Ltac solve_body :=
+  repeat first
+    [ apply b_nil
+    | match goal with
+      | |- body ?q ?t (92 :: ?c :: ?r) =>
+          apply (b_cons q t [92; c] r); [apply it_esc; [discriminate | let H := fresh in intro H; first [discriminate H | discriminate]] |]
+      end
+    | match goal with
+      | |- body ?q ?t (?c :: ?r) => apply (b_cons q t [c] r); [apply it_plain; discriminate |]
+      end ].
+
+Definition ex_segs : list seg :=
+  [Code ($"select "); Lit QT false ($"where \""" ++ [TAB] ++ $"#,; a1 ' = *"); Code ($", a1" ++ [TAB]);
+   Lit APOS true ($"from a \x order by"); Code ($" + "); Lit QT false []; Code ($" x")].
+
+Example literals_opaque_example :
+  wf_segs ex_segs /\
+  separate_string_literals LPy (render ex_segs) =
+    ($"select ___RBQL_STRING_LITERAL0___, a1 ___RBQL_STRING_LITERAL1___ + ___RBQL_STRING_LITERAL2___ x",
+     [$"""where \""" ++ [TAB] ++ $"#,; a1 ' = *"""; $"'''from a \x order by'''"; $""""""]).
+Proof.
+  split.
+  - unfold ex_segs. apply wf_code; [split; intro H; cbn in H; repeat destruct H as [H|H]; try discriminate; contradiction|].
+    apply wf_lit; [left; reflexivity | cbv; solve_body | | intros _ H; discriminate H].
+    apply wf_code; [split; intro H; cbn in H; repeat destruct H as [H|H]; try discriminate; contradiction|].
+    apply wf_lit; [right; reflexivity | cbv; solve_body | | intro H; discriminate H].
+    apply wf_code; [split; intro H; cbn in H; repeat destruct H as [H|H]; try discriminate; contradiction|].
+    apply wf_lit; [left; reflexivity | apply b_nil | | intros _ _; reflexivity].
+    apply wf_code; [split; intro H; cbn in H; repeat destruct H as [H|H]; try discriminate; contradiction|].
+    apply wf_nil.
+  - vm_compute. reflexivity.
+Qed.
+
+(* combine_string_literals is a sequential replace: a literal that contains the text of a later placeholder is
+   itself substituted into (observation O1) - the hypothesis "no literal contains ___RBQL_STRING_LITERAL" of
+   C08_combine_verbatim cannot be dropped *)
+Definition ex_segs_o1 : list seg := [Lit QT false ($"___RBQL_STRING_LITERAL1___"); Code ($" + "); Lit APOS false ($"x")].
+Example combine_needs_hypothesis :
+  wf_segs ex_segs_o1 /\
+  combine_string_literals (placeholders 0 ex_segs_o1) (literals ex_segs_o1) = $"""'x'"" + 'x'" /\
+  render ex_segs_o1 = $"""___RBQL_STRING_LITERAL1___"" + 'x'".
+Proof.
+  split; [|split; vm_compute; reflexivity].
+  unfold ex_segs_o1. apply wf_lit; [left; reflexivity | cbv; solve_body | | intros _ H; discriminate H].
+  apply wf_code; [split; intro H; cbn in H; repeat destruct H as [H|H]; try discriminate; contradiction|].
+  apply wf_lit; [right; reflexivity | cbv; solve_body | apply wf_nil | intros _ H; discriminate H].
+Qed.
